@@ -203,6 +203,13 @@ func checkC08(c *Ctx) {
 			{"args-are-values/constructor", "定义点：\n\t其横 = 0\n\t其纵 = 0\n如何新建点？\n\t输入甲、乙\n\t其横 = 甲\n\t其纵 = 乙\n令数 = 1\n令物 = （新建点：数、以数（自增：10））\n输出【物之横，物之纵】\n", `list[num(1),num(11)]`},
 			{"args-are-values/type-method", "定义箱：\n\t其记 = 0\n\t如何装？\n\t\t输入甲、乙\n\t\t输出【甲，乙】\n令数 = 1\n令物 = （新建箱）\n输出 以物（装：数、以数（自增：10））\n", `list[num(1),num(11)]`},
 			{"args-are-values/display", "令数 = 1\n（显示：数、{以数（自增：10）}、数）\n输出 数\n", `num(11)`},
+			// the call yields the value of the 输出 that was reached first, from inside any loop over any
+			// kind of collection, and nothing of the method runs afterwards
+			{"return-from-dict-loop/first-match", "如何查？\n\t输入表\n\t以键、值遍历表：\n\t\t如果 值 > 1：\n\t\t\t输出 键\n\t输出 “无”\n输出（查：【“甲” = 1，“乙” = 2，“丙” = 3，“丁” = 4】）\n", `text("乙")`},
+			{"return-from-dict-loop/no-later-effects", "定义计：\n\t其数 = 0\n如何查？\n\t输入表、器\n\t以键、值遍历表：\n\t\t器之数 = 器之数 + 1\n\t\t如果 值 == 2：\n\t\t\t输出 键\n\t输出 “无”\n令器 = （新建计）\n令果 = （查：【“甲” = 1，“乙” = 2，“丙” = 3，“丁” = 4】、器）\n输出【果，器之数】\n", `list[text("乙"),num(2)]`},
+			{"return-from-dict-loop/in-type-method", "定义库：\n\t其表 = 【“甲” = 1，“乙” = 2，“丙” = 2】\n\t其次 = 0\n\t如何查？\n\t\t以键、值遍历 其表：\n\t\t\t其次 = 其次 + 1\n\t\t\t如果 值 == 2：\n\t\t\t\t输出 键\n\t\t输出 “无”\n令物 = （新建库）\n令果 = 以物（查）\n输出【果，物之次】\n", `list[text("乙"),num(2)]`},
+			{"return-from-list-loop/no-later-effects", "定义计：\n\t其数 = 0\n如何查？\n\t输入列、器\n\t以项遍历列：\n\t\t器之数 = 器之数 + 1\n\t\t如果 项 == 2：\n\t\t\t输出 项\n\t输出 0\n令器 = （新建计）\n令果 = （查：【1，2，2，2】、器）\n输出【果，器之数】\n", `list[num(2),num(2)]`},
+			{"return-from-nested-loops", "如何查？\n\t输入表\n\t以键、值遍历表：\n\t\t以项遍历值：\n\t\t\t如果 项 > 2：\n\t\t\t\t输出【键，项】\n\t输出 “无”\n输出（查：【“甲” = 【1，2】，“乙” = 【3，4】，“丙” = 【5】】）\n", `list[text("乙"),num(3)]`},
 			{"local-type-with-constructor", "如何造？\n\t输入名字\n\t定义猫：\n\t\t其名 = “无”\n\t如何新建猫？\n\t\t输入名\n\t\t其名 = 名\n\t输出（新建猫：名字）之名\n输出【（造：“咪”），（造：“喵”）】\n", `list[text("咪"),text("喵")]`},
 			{"local-type-default-constructor", "如何造？\n\t定义猫：\n\t\t其名 = “无”\n\t输出（新建猫）之名\n输出【（造），（造）】\n", `list[text("无"),text("无")]`},
 			{"module-type-with-constructor", "定义猫：\n\t其名 = “无”\n如何新建猫？\n\t输入名\n\t其名 = 名\n输出（新建猫：“咪”）之名\n", `text("咪")`},
